@@ -23,8 +23,9 @@ func c06SeqScens(tier string) []e1Scen {
 	if tier == "thorough" {
 		depth = 6
 	}
-	cfgs := []muxCfg{mcfg("ll", false, 7, "h264"), mcfg("ll", true, 7, "h264", "aac44")}
-	for _, cfg := range cfgs {
+	// (SegmentCount above the minimum: the initial gap segments and the first segment number are kept in two places)
+	cfgs := []muxCfg{mcfg("ll", false, 7, "h264"), mcfg("ll", true, 7, "h264", "aac44"), mcfg("ll", false, 8, "h264"), mcfg("ll", false, 10, "h264")}
+	for ci, cfg := range cfgs {
 		var alpha []sym
 		lead := cfg.leading()
 		for _, d := range []string{"q", "S"} {
@@ -37,6 +38,15 @@ func c06SeqScens(tier string) []e1Scen {
 			alpha = append(alpha, sym{T: 1, D: "c", N: 10})
 		}
 		sc := e1Scen{Prop: "C06", Cfg: cfg, Alpha: alpha, Depth: depth + 1, Mode: "tree", Name: "C06seq-tree"}
+		if ci >= 2 {
+			// the larger windows: one level less from the initial state, and after a preamble that fills the window
+			sc.Depth = depth
+			out = append(out, e1Shard(sc, 2)...)
+			sc2 := sc
+			sc2.Pre, sc2.Depth, sc2.Name = cfg.SegCount+1, depth-1, "C06seq-tree-after-preamble"
+			out = append(out, e1Shard(sc2, 2)...)
+			continue
+		}
 		out = append(out, e1Shard(sc, 4)...)
 		sc2 := sc
 		sc2.Pre, sc2.Depth, sc2.Name = 8, depth, "C06seq-tree-after-preamble"
